@@ -62,6 +62,13 @@ def runAlloc (inp : List String) (out : String) : Option Res := do
            finding := "" }
   | _ => none
 
+/-- C01: the set of outputs of repeated executions must be a singleton (and equal the model's) -/
+def runAllocRep (inp : List String) (out : String) : Option Res := do
+  let outs := out.splitOn " || "
+  let r ← runAlloc inp (outs.headD "")
+  pure { r with agree := r.agree && outs.length == 1, monitor := outs.length == 1, nontrivial := true,
+                note := if outs.length == 1 then "" else "nondeterministic" }
+
 def parseOrigin (s : String) : Option Origin :=
   match s.splitOn ":" with
   | [d, v, a] => do pure ⟨d, v, ← parseInt? a⟩
